@@ -133,3 +133,31 @@ func detWitness(id int) *History {
 	h.Ops = append(h.Ops, Op{Kind: "export"})
 	return h
 }
+
+
+// detWitness2: the order in which the contexts due in one block are handled matters when they
+// compete for one consumer's balance: a consumer holding 6 opens four one-provider contexts priced
+// 3, 4, 5 and 6 in one block; in store-key order the first (3) is paid, the others pause. Any
+// traversal that is not the store's key order (e.g. a Go map) gives another outcome on some replay.
+func detWitness2(id int) *History {
+	h := &History{ID: id, Name: "det-witness-competing", Seed: 0, CfgIdx: 1}
+	for _, o := range ownerAtoms {
+		h.Funding = append(h.Funding, [2]int64{o, 50000000})
+	}
+	h.Funding = append(h.Funding, [2]int64{111, 6})
+	price := func(p string) PricingArg { return PricingArg{Kind: "P", Price: p, Denom: denom} }
+	dep := func(n int64) CoinsArg { return CoinsArg{Kind: "B", Amt: n} }
+	provs := []int64{121, 126, 127, 101}
+	h.Ops = append(h.Ops, Op{Kind: "define", Svc: 1, Content: 1, Owner: 101})
+	for i, p := range provs {
+		h.Ops = append(h.Ops, Op{Kind: "bind", Svc: 1, Prov: p, Owner: 101, Pr: price([]string{"3", "4", "5", "6"}[i]), Dep: dep(1000), QoS: 1})
+	}
+	for i, p := range provs {
+		h.Ops = append(h.Ops, Op{Kind: "call", Tx: uint64(7000 + 13*i), Idx: 0, Svc: 1, Provs: []int64{p}, Cons: 111, Input: int64(i + 1), InputOK: true,
+			Dep: dep(1000), Timeout: 2, Rep: true, Freq: 2, Total: 2})
+	}
+	for i := 0; i < 4; i++ {
+		h.Ops = append(h.Ops, Op{Kind: "endblock", Dt: int64(5e9)})
+	}
+	return h
+}
